@@ -60,15 +60,19 @@ theorem retry_onFailure_events (pos : Nat) (m : Int) (rl : Bool) (a : List Cond)
   generalize isAbortable a res1.outcome = ab
   cases exc <;> cases ab <;> cases rl <;> simp [Run.emit, setFailed]
 
-/-- **`OnRetryScheduled` once per retry decided, `OnRetry` once per retry started**: in a sequential run every scheduled
-retry is started; the two counts grow together, for any inner layer that does not emit this policy's events -/
+/-- **`OnRetryScheduled` once per retry decided, `OnRetry` once per retry started**: every scheduled retry is started — the two
+counts grow together — except that a retry scheduled when the execution is cancelled during its delay is never started (then,
+and only then, one more was scheduled than started, and the loop has returned with the execution cancelled); for any inner layer
+that does not emit this policy's events -/
 theorem retry_scheduled_eq_started (pos : Nat) (m : Int) (rl : Bool) (h a : List Cond) (inner : Layer)
     (hin : ∀ r res r1, inner r = some (res, r1) →
       count "rp.onRetryScheduled" pos r1.log = count "rp.onRetryScheduled" pos r.log ∧
       count "rp.onRetry" pos r1.log = count "rp.onRetry" pos r.log) :
     ∀ fuel r res r', retryLoop pos m rl h a inner fuel r = some (res, r') →
-      count "rp.onRetryScheduled" pos r'.log - count "rp.onRetryScheduled" pos r.log =
-      count "rp.onRetry" pos r'.log - count "rp.onRetry" pos r.log ∧
+      (count "rp.onRetryScheduled" pos r'.log - count "rp.onRetryScheduled" pos r.log =
+         count "rp.onRetry" pos r'.log - count "rp.onRetry" pos r.log ∨
+       (count "rp.onRetryScheduled" pos r'.log - count "rp.onRetryScheduled" pos r.log =
+         count "rp.onRetry" pos r'.log - count "rp.onRetry" pos r.log + 1 ∧ r'.isCanc = true)) ∧
       count "rp.onRetryScheduled" pos r.log ≤ count "rp.onRetryScheduled" pos r'.log ∧
       count "rp.onRetry" pos r.log ≤ count "rp.onRetry" pos r'.log := by
   intro fuel
@@ -90,7 +94,7 @@ theorem retry_scheduled_eq_started (pos : Nat) (m : Int) (rl : Bool) (h a : List
         simp only [count_append]
         rcases hnm with rfl | rfl <;>
           (repeat' split) <;> simp [count]
-      by_cases hc : r1.cancelled = true
+      by_cases hc : r1.isCanc = true
       · simp only [hc, if_true, Option.some.injEq, Prod.mk.injEq] at hh
         obtain ⟨_, rfl⟩ := hh; omega
       · simp only [hc] at hh
@@ -105,13 +109,25 @@ theorem retry_scheduled_eq_started (pos : Nat) (m : Int) (rl : Bool) (h a : List
               obtain ⟨_, rfl⟩ := hh
               rw [hof _ (Or.inl rfl), hof _ (Or.inr rfl)]; omega
             · simp only [hd] at hh
-              have := ih _ res r' hh
-              simp only [count_emit, Run.emit] at this
               have e1 := hof _ (Or.inl rfl)
               have e2 := hof _ (Or.inr rfl)
-              simp only [count_append, count] at this e1 e2 h1 h2 ⊢
-              simp at this
-              omega
+              generalize hX : (({ (retryOnFailure pos m rl a res1.withFailure r1).2 with
+                  last := (retryOnFailure pos m rl a res1.withFailure r1).1.outcome }).emit "rp.onRetryScheduled" pos).trigger "rp.onRetryScheduled" = X at hh
+              have hXs : count "rp.onRetryScheduled" pos X.log = count "rp.onRetryScheduled" pos r1.log + 1 := by
+                rw [← hX, Run.trigger_log]; simp only [Run.emit, count_append]; rw [e1]; simp [count]
+              have hXr : count "rp.onRetry" pos X.log = count "rp.onRetry" pos r1.log := by
+                rw [← hX, Run.trigger_log]; simp only [Run.emit, count_append]; rw [e2]; simp [count]
+              by_cases hx : X.isCanc = true
+              · simp only [hx, if_true, Option.some.injEq, Prod.mk.injEq] at hh
+                obtain ⟨_, rfl⟩ := hh
+                refine ⟨Or.inr ⟨by omega, hx⟩, by omega, by omega⟩
+              · simp only [hx] at hh
+                have := ih _ res r' hh
+                simp only [count_emit, Run.emit, count_append, count] at this hXs hXr h1 h2 ⊢
+                simp at this hXs hXr
+                rcases this with ⟨h0 | ⟨h0, hcan⟩, hm1, hm2⟩
+                · exact ⟨Or.inl (by omega), by omega, by omega⟩
+                · exact ⟨Or.inr ⟨by omega, hcan⟩, by omega, by omega⟩
           · simp only [hfl, Option.some.injEq, Prod.mk.injEq] at hh
             obtain ⟨_, rfl⟩ := hh
             simp only [count_emit]
